@@ -505,10 +505,18 @@ Definition printValue (rec : recT) (env : env) (value : value) (verb : Z) (depth
     end
   | S _ =>
     match value with
+    (* printWrapped: when the wrapper itself can be converted to an interface, the wrapped value is
+       taken through the wrapper's accessor and printed like an operand (its formatting methods
+       are called, as for a Safe() wrapper held by a slice element); else by reflection on the
+       wrapper's unexported field *)
     | VSafe v _ =>
-      bracket start_safe_ovr (rec (CPrintValue (iface_field v) verb (S depth) false) ;;; ret tt)
+      bracket start_safe_ovr
+        (if ci then rec (CPrintArg v verb) ;;; ret tt
+         else rec (CPrintValue (iface_field v) verb (S depth) false) ;;; ret tt)
     | VUnsafe v =>
-      bracket start_unsafe_ovr (rec (CPrintValue (iface_field v) verb (S depth) false) ;;; ret tt)
+      bracket start_unsafe_ovr
+        (if ci then rec (CPrintArg v verb) ;;; ret tt
+         else rec (CPrintValue (iface_field v) verb (S depth) false) ;;; ret tt)
     | VRS s0 | VRB s0 => bracket start_prered (w1 (WS s0))
     | _ =>
       bracket_if (is_registered value) start_safe_ovr
